@@ -13,7 +13,7 @@
 //       interpretations of the base set (X1 = {1,2,3}, {}, {5}).
 //
 // Build: see /verif/refs/README.md.
-// Run: t_ref_eval [-v] [-cap N] [-only harvest|gen|sets] [-skip2] [-binder TEXT] [-fixed] [-skip-overflow]
+// Run: t_ref_eval [-v] [-cap N] [-only harvest|gen|sets] [-skip2] [-binder TEXT] [-fixed] [-skip-overflow] [-strict]
 //   (the full generator takes about half an hour under ASan; -skip2 / -binder select parts of it)
 //   -fixed: the binary is linked against a patched COPY of rslang (defects 1, 2 of the KNOWN list fixed),
 //           so the skips / expectations for those defects are switched off and any remaining
@@ -179,6 +179,7 @@ struct Stats {
 
 static bool g_verbose = false;
 static bool g_skipOverflow = false;  // -skip-overflow: library without the ViArithmetic overflow check (UB)
+static bool g_strict = false;        // -strict: no textual classification of known defects
 static bool g_fixedLibrary = false;  // -fixed: linked against a copy of rslang with the known defects patched
 static double Now() { return static_cast<double>(clock()) / CLOCKS_PER_SEC; }
 static std::vector<std::string> g_disagreements;
@@ -216,6 +217,18 @@ static std::string KnownDefect(const std::string& expr, const RealResult& /*real
   if ((oracle.failMask >> ref::F_MALFORMED & 1U) != 0 && expr.find("R{") != std::string::npos
       && expr.find("∅") != std::string::npos) {
     return "ill-typed recursion accepted by TypeAuditor (type of the variable does not stabilise)";
+  }
+  // SDPowerSet::Iterator::operator== / SDDecartian::Iterator::operator== are asymmetric: `end() == it` is TRUE
+  // for an iterator at the first element, so `last == find_if_not(first, last, pred)` inside std::all_of makes
+  // SDSet::IsSubsetOrEq(lazy set, rhs) answer true when the FIRST element of a lazily represented set (A×B or
+  // ℬ(A)) is not in rhs.  Reaches ⊆ ⊂ ⊄ and `x∈P` / `x∉P` with P = ℬ(S) and x = A×B or ℬ(A).  Every disagreement of
+  // this family disappears when only those two operators are patched (-fixed build), which is how the
+  // classification below (textual, hence heuristic) was validated; -strict switches it off.
+  if (!g_fixedLibrary && !g_strict) {
+    const auto has = [&expr](const char* text) { return expr.find(text) != std::string::npos; };
+    const bool lazySet = has("×") || has("ℬ");
+    const bool subsetTest = has("⊆") || has("⊂") || has("⊄") || has("P1[") || (has("ℬ") && (has("∈") || has("∉")));
+    if (lazySet && subsetTest) return "IsSubsetOrEq wrong for lazy sets (asymmetric iterator operator==)";
   }
   return {};
 }
@@ -509,8 +522,9 @@ static void TestSetAlgebra() {
         if (!g_fixedLibrary && lazy.contains(&a) && !a.B().IsEmpty() && !b.B().Contains(*a.B().begin())) {
           // KNOWN real defect: SDPowerSet/SDDecartian::Iterator::operator== is asymmetric (end()==begin() holds),
           // so std::all_of in SDSet::IsSubsetOrEq answers true when the FIRST element is not in rhs.
-          ++g_setKnown;
-          if (ref::IsSubsetOrEq(ra, rb) || !a.B().IsSubsetOrEq(b.B())) { ++g_setFails; printf("  known lazy-subset defect not reproduced\n"); }
+          ++g_setChecks;
+          if (ref::IsSubsetOrEq(ra, rb)) { ++g_setFails; printf("  oracle IsSubsetOrEq wrong\n"); }
+          else if (a.B().IsSubsetOrEq(b.B())) ++g_setKnown;  // defect present (a fixed library answers false)
         } else {
           ExpectBool(ref::IsSubsetOrEq(ra, rb), a.B().IsSubsetOrEq(b.B()), "IsSubsetOrEq", a, b);
         }
@@ -1078,8 +1092,8 @@ static void RunAll() {
   std::vector<Ex> atoms{};
   for (const char* atom : { "X1", "S1", "S2", "D1", "D2", "D3", "D4", "C1", "0", "1", "2", "3", "∅", "Z" }) {
     std::string type{ "EMPTYSET" };
-    // KNOWN real defect: TypeAuditor::ViEmptySet reads iter.Parent() of the ROOT node (null) when the whole
-    // expression is the literal ∅ => never type-check a bare ∅.
+    // Defect of the original tree (fixed in /repo meanwhile): TypeAuditor::ViEmptySet read iter.Parent() of the
+    // ROOT node (null) when the whole expression is the literal ∅ => a bare ∅ is never type-checked here.
     if (std::string{ atom } != "∅" && !Run(atom, type)) { printf("atom %s is not well-typed\n", atom); exit(2); }
     atoms.push_back(Ex{ atom, ATOM, type });
     g_buckets[TypeKey(atoms.back())].shallow.push_back(atoms.back());
@@ -1267,6 +1281,7 @@ int main(int argc, char** argv) {
     else if (!strcmp(argv[i], "-skip2")) gen::g_skipDepth2 = true;
     else if (!strcmp(argv[i], "-fixed")) g_fixedLibrary = true;
     else if (!strcmp(argv[i], "-skip-overflow")) g_skipOverflow = true;
+    else if (!strcmp(argv[i], "-strict")) g_strict = true;
     else if (!strcmp(argv[i], "-binder") && i + 1 < argc) gen::g_binderFilter = argv[++i];
   }
   setvbuf(stdout, nullptr, _IOLBF, 0);
